@@ -387,6 +387,12 @@ class AccountingMonitor(Monitor):
                 self.res.probes["c10.failed_placement"] += 1
 
 
+def STATUS_FILTERS():
+    from flumine.order.order import OrderStatus
+
+    return [[OrderStatus.EXECUTABLE], [OrderStatus.EXECUTION_COMPLETE], [OrderStatus.PENDING, OrderStatus.CANCELLING, OrderStatus.UPDATING, OrderStatus.REPLACING], [OrderStatus.EXECUTABLE, OrderStatus.EXECUTION_COMPLETE]]
+
+
 class BlotterMonitor(Monitor):
     """C15"""
 
@@ -452,6 +458,22 @@ class BlotterMonitor(Monitor):
                 w4 = [o for o in want if o.client is c]
                 if ids(b.client_strategy_orders(c, s)) != ids(w4):
                     self.violate(self.P, "C15.views", "client_strategy_orders", got=ids(b.client_strategy_orders(c, s)), want=ids(w4), where=where)
+                if ids(b.client_strategy_orders(c, s, matched_only=True)) != ids([o for o in w4 if o.size_matched > 0]):
+                    self.violate(self.P, "C15.filters", "client_strategy_orders:matched_only")
+                for fl in STATUS_FILTERS():
+                    w5 = [o for o in w4 if o.status in fl]
+                    if ids(b.client_strategy_orders(c, s, order_status=fl)) != ids(w5):
+                        self.violate(self.P, "C15.filters", "client_strategy_orders:order_status", filter=[x.name for x in fl])
+                    if ids(b.client_strategy_orders(c, s, order_status=fl, matched_only=True)) != ids([o for o in w5 if o.size_matched > 0]):
+                        self.violate(self.P, "C15.filters", "client_strategy_orders:order_status+matched_only", filter=[x.name for x in fl])
+            # trades of the strategy, all and by status
+            wt = [t for t in trades if t.strategy is s]
+            gt = b.strategy_trades(s)
+            if sorted(id(t) for t in gt) != sorted(id(t) for t in wt):
+                self.violate(self.P, "C15.views", "strategy_trades", got=len(gt), want=len(wt), where=where)
+            for t_status in set(t.status for t in wt):
+                if sorted(id(t) for t in b.strategy_trades(s, trade_status=[t_status])) != sorted(id(t) for t in wt if t.status == t_status):
+                    self.violate(self.P, "C15.filters", "strategy_trades:trade_status", status=t_status.name)
         for (s, sel, hc) in sels:
             want = [o for o in sh if o.trade.strategy is s and o.selection_id == sel and o.handicap == hc]
             got = b.strategy_selection_orders(s, sel, hc)
@@ -460,6 +482,17 @@ class BlotterMonitor(Monitor):
             w3 = [o for o in want if o.size_matched > 0]
             if ids(b.strategy_selection_orders(s, sel, hc, matched_only=True)) != ids(w3):
                 self.violate(self.P, "C15.filters", "strategy_selection_orders:matched_only", want=ids(w3))
+            for fl in STATUS_FILTERS():
+                w5 = [o for o in want if o.status in fl]
+                if ids(b.strategy_selection_orders(s, sel, hc, order_status=fl)) != ids(w5):
+                    self.violate(self.P, "C15.filters", "strategy_selection_orders:order_status", filter=[x.name for x in fl])
+                if ids(b.strategy_selection_orders(s, sel, hc, order_status=fl, matched_only=True)) != ids([o for o in w5 if o.size_matched > 0]):
+                    self.violate(self.P, "C15.filters", "strategy_selection_orders:order_status+matched_only", filter=[x.name for x in fl])
+            if hc:
+                self.res.probes["c15.views_on_handicap_runner"] += 1
+                # the same selection under another handicap is another runner
+                if b.strategy_selection_orders(s, sel, 0) and not any(k == (s, sel, 0) for k in sels):
+                    self.violate(self.P, "C15.views", "strategy_selection_orders-ignores-handicap", selection=sel, handicap=hc)
         for c in clients:
             want = [o for o in sh if o.client is c]
             if ids(b.client_orders(c)) != ids(want):
@@ -467,6 +500,12 @@ class BlotterMonitor(Monitor):
             w3 = [o for o in want if o.size_matched > 0]
             if ids(b.client_orders(c, matched_only=True)) != ids(w3):
                 self.violate(self.P, "C15.filters", "client_orders:matched_only", want=ids(w3))
+            for fl in STATUS_FILTERS():
+                w5 = [o for o in want if o.status in fl]
+                if ids(b.client_orders(c, order_status=fl)) != ids(w5):
+                    self.violate(self.P, "C15.filters", "client_orders:order_status", filter=[x.name for x in fl])
+                if ids(b.client_orders(c, order_status=fl, matched_only=True)) != ids([o for o in w5 if o.size_matched > 0]):
+                    self.violate(self.P, "C15.filters", "client_orders:order_status+matched_only", filter=[x.name for x in fl])
         for t in trades:
             want = [o for o in sh if o.trade is t]
             if b.get_trade(t.id) is not t or ids(b._trades.get(t, [])) != ids(want) or not b.has_trade(t):
